@@ -6,6 +6,7 @@ import (
 
 	"verif/kit"
 	"verif/ref"
+	"verif/vs"
 
 	"github.com/orbs-network/lean-helix-go/services/interfaces"
 	"github.com/orbs-network/lean-helix-go/state"
@@ -394,6 +395,32 @@ func init() {
 		}
 		finish(x, n, nil, "")
 	})
+
+	// S-stale-trigger+cancel: an election trigger is already waiting in the worker's queue while the worker is held
+	// inside a slow ValidateBlockProposal; a sync then moves the node to the next height (the trigger becomes stale)
+	// and the context is cancelled around the moment the worker picks the stale trigger up. Shutdown must still be
+	// complete (C16). The deterministic prefix arranges "trigger queued, worker held"; the explorer does the rest.
+	register(&Scenario{Name: "S-stale-trigger+cancel", Props: []string{"C16"}, MaxFires: 1, Horizon: 20000, Body: func(x *X) {
+		n := newNode(x, 1)
+		hold := make(chan struct{})
+		n.HoldVal[1] = hold
+		n.Boot()
+		s := x.S
+		s.PrefixFires = 1
+		feed(n, n.peerMsgs(1, "B1")[:1]) // PREPREPARE: worker held in the validator; then the (1,0) timer expires and its trigger is queued
+		s.PrefixFires = 0
+		s.Thread("sync", func() { n.M.UpdateState(n.Ctx, kit.NewBlock(1, "B1"), n.proofFor(1, "B1")) })
+		s.Thread("release", func() {
+			vs.Closed(hold)
+			close(hold)
+		})
+		s.Thread("cancel", func() { n.Cancel() })
+		if !s.Run(20000) {
+			x.Bad("C16", "livelock", "step horizon reached")
+		}
+		finish(x, n, nil, "")
+	}})
+	quickBound["S-stale-trigger+cancel"], thoroughBound["S-stale-trigger+cancel"] = 3, 4
 
 	// S-state: the State object alone. One writer (the worker's role: view change, then next height), one reader
 	// taking two (height, view) snapshots. Every snapshot must be a state that existed, and snapshots never go back.
